@@ -13,7 +13,8 @@ ASSUMPTIONS = [
     "freezegun freezes datetime.now() for the implementation run",
 ]
 
-NAMES = ["a", "b", "c", "work", "home", "x1", "daily", "g"]
+# related names: prefixes / suffixes / case variants of one another (a lookup must be exact)
+NAMES = ["a", "b", "c", "work", "home", "x1", "daily", "g", "work_old", "wo", "ab", "x", "x12", "Work", "day", "days", "ho"]
 FILES = ["foo.zo", "bar.zo", "sub/baz.zo", "2024/notes.zo", "p q.zo", "x@y.zo", "a.b.zo", "zo"]
 PATTERNS = ["{yyyymmdd[%d]}.zo", "{days[%d].year}/{yyyymmdd[%d]}.zo", "log/{days[%d].year}-{days[%d].month}-{days[%d].day}.zo",
             "d{days[%d].day}", "{days[%d].month}/x.zo"]
